@@ -38,6 +38,14 @@ CHECKS = {
    text="Notify.tla models the fan-out (one independent delivery task per channel per stored header); TLC checks NoEventWithoutStore, AtMostOnce, ExactlyOncePerChannel at quiescence, IngestionNeverWaits, ChannelsIndependent and the liveness EventuallyDelivered with one failing and one blocked channel; TLC-generated ingestion histories (duplicates, forbidden, orphans, reorgs, restarts, injected insert failures) are replayed with recording channels on the real Notifier: plain, slow/blocking, the real websocket channel over a recording publisher, the real WebhooksService over SQL with a scripted client; per channel the multiset of events and all nine fields are compared with the stored headers.",
    technique="explicit TLA+ spec (Notify.tla) model-checked by TLC incl. liveness; TLC-generated histories replayed into the real notifier/channels with recording sinks",
    note=TB + " The centrifuge node and a real websocket client are not in the loop (recording WebsocketPublisher)."),
+ "C09": dict(cat="model_checking", ref="DESIGN.md §5 C09",
+   text="Access.tla holds the middleware decision Decide(route class, credential class, use_auth); TLC checks NoApiHandlerWithoutValidToken / AdminOnlyForTokenMgmt / AuthOffOpens over the full product and emits the decision table; the harness enumerates gin Engine.Routes() at run time (new routes are included), classifies by path prefix only, and instantiates every table row on every route and method for use_auth on/off x profiling on/off: 401 + structured single-JSON body + unchanged tokens/webhooks/headers tables for rejected requests, not-401 for admitted ones; any route outside /api/v1 that is not status/swagger/metrics/pprof/websocket is a violation.",
+   technique="explicit TLA+ decision table (Access.tla) checked and emitted by TLC; replayed on every route of the real gin routing table",
+   note=TB + " Handlers behind pprof/swagger/websocket-upgrade routes are not invoked (existence only); websocket connect is covered by C10."),
+ "C10": dict(cat="model_checking", ref="DESIGN.md §5 C10",
+   text="Access.tla models the token set (issued, revoked, admin=0); TLC checks AdminAlways, RevokedNeverValid, RevocationIsForEver, OthersUnaffected, RejectedChangesNothing; TLC enumerates EVERY sequence of create/revoke(existing|unknown|admin|already revoked, as admin or as user)/restart of length 5 (6 sampled in thorough) and the harness replays each over gin + the SQL token repository, presenting EVERY token (admin, issued, revoked, never issued) on two HTTP routes after EVERY step, and performing a real centrifuge-go websocket connect handshake against the real websocket server after every step (all histories in thorough, 1/40 in quick); close/reopen for restart; issued tokens pairwise distinct.",
+   technique="explicit TLA+ set model (Access.tla) model-checked by TLC; exhaustive TLC op sequences replayed over HTTP + real websocket connect",
+   note=TB),
 }
 
 NA = []
